@@ -213,10 +213,66 @@ def policy_label(st):
                     st.violation('policy-host-label:%s' % sp, {'target': text, 'label': pt.host, 'expected': label_text(kind, host, eport)})
 
 
+def multi_entry_cases():
+    """targets files with 2-3 entries: same host on different ports, different hosts on the same port, mixes; with/without -p"""
+    entries = [('host.example', None), ('host.example', 2222), ('host.example', 2200), ('other.example', None), ('other.example', 2222),
+               ('192.0.2.10', None), ('192.0.2.10', 2222), ('::1', None), ('::1', 2222)]
+    out = []
+    for n in (2, 3):
+        for combo in itertools.permutations(range(len(entries)), n):
+            if n == 3 and not (entries[combo[0]][0] == entries[combo[2]][0] or entries[combo[0]][1] == entries[combo[1]][1]):
+                continue
+            for popt in (None, 2022):
+                out.append((tuple(entries[i] for i in combo), popt))
+    return out
+
+
+def work_multi_entry(chunk, st):
+    for ents, popt in chunk:
+        servers, resolver, lines, expect = {}, {}, [], []
+        ipmap = {'host.example': ADDR4, 'other.example': '198.51.100.8'}
+        for host, port in ents:
+            kind = 'v6' if ':' in host else ('v4' if host[0].isdigit() else 'name')
+            ip = ipmap.get(host, host)
+            eport = port if port is not None else (popt or 22)
+            if kind == 'name':
+                resolver[host] = [(V4, ip)]
+            servers[(ip, eport)] = P.Server(label='%s@%d' % (ip, eport), banner=('SSH-2.0-Srv_%s_%d' % (ip.replace(':', 'x').replace('.', 'x'), eport)).encode())
+            lines.append(spellings(kind, host, port)[-1][1])
+            expect.append((host, ip, eport, kind))
+        w = vnet.World(servers=servers, resolver=resolver)
+        path = H.tmp_path('c18-multi.txt')
+        with open(path, 'w') as f:
+            f.write(''.join(l + '\n' for l in lines))
+        argv = ['-n', '--skip-rate-test', '-j', '-T', path, '--threads', '1'] + (['-p', str(popt)] if popt else [])
+        res = runner.run_cli(argv, w)
+        st.execution(w, outcome=('multi-entry', len(ents), res.status), root=('multi-entry', ents, popt), nontrivial=('multi-entry', ents, popt))
+        d = {'lines': lines, 'p': popt, 'status': res.status}
+        try:
+            docs = json.loads(res.stdout)
+        except ValueError:
+            st.violation('multi-entry:json-unparseable', dict(d, stdout=res.stdout[:200]))
+            continue
+        if len(docs) != len(ents):
+            st.violation('multi-entry:wrong-number-of-results', dict(d, got=len(docs)))
+            continue
+        connects = [(ev[2], ev[3]) for ev in w.log if ev[0] == 'connect']
+        if sorted(set(connects)) != sorted(set((ip, pt) for _h, ip, pt, _k in expect)):
+            st.violation('multi-entry:connects-to-wrong-endpoints', dict(d, connects=sorted(set(connects)), expected=sorted(set((ip, pt) for _h, ip, pt, _k in expect))))
+        for (host, ip, eport, kind), doc in zip(expect, docs):
+            want_banner = 'SSH-2.0-Srv_%s_%d' % (ip.replace(':', 'x').replace('.', 'x'), eport)
+            if doc.get('target') != '%s:%d' % (host, eport) or doc.get('banner', {}).get('raw') != want_banner:
+                st.violation('multi-entry:report-label-or-content-of-another-target', dict(d, target=doc.get('target'), banner=doc.get('banner', {}).get('raw'),
+                                                                                         expected=['%s:%d' % (host, eport), want_banner]))
+    st.sample({'targets_file': [spellings('name', h, p)[-1][1] if ':' not in h else h for h, p in chunk[0][0]], 'p': chunk[0][1]}, cap=8)
+
+
 def run(tier, seed):
     t0 = time.time()
     cs = cases(tier)
     st = par.pmap(work, cs)
+    me = multi_entry_cases()
+    par.pmap(work_multi_entry, me if tier != 'quick' else me[::3], stats=st, chunk=8)
     check_direct(st)
     policy_label(st)
     # real resolver and real sockets for the forms that can be exercised on loopback without a name service
@@ -232,7 +288,8 @@ def run(tier, seed):
         PID, tier, seed, st, t0,
         rule='hosts %s x ports {absent} + %s + invalid %s x documented spellings (bare, host:port, [v6], [v6]:port) x source {argv, targets file, '
              'targets file with blank/whitespace/CRLF lines and padded target} x -p %s x family options %s x resolver answers %s (%s), text and '
-             'JSON; direct calls of the target parser; policy-mode label' % (
+             'JSON; targets files with 2-3 entries (same host on different ports, different hosts on one port, with and without -p) where every '
+             'entry must reach its own endpoint and carry its own label; direct calls of the target parser; policy-mode label' % (
                  [h for _k, h in HOSTS], PORTS_OK, PORTS_BAD, POPTS, list(FAMILY_OPTS), RESOLVER, 'full product' if tier != 'quick' else 'every 3rd combination'),
         assumptions=['an explicit port in the target wins over -p (the port option is the default)', 'servers exist at every address the resolver may return'],
         exhaustive=(tier != 'quick'), traces_validated=validated, extra={'cases': len(cs)})
